@@ -321,21 +321,27 @@ func (r *libRec) scenarioCache(i int) {
 		kids[k] = len(kids) + 1
 		return kids[k]
 	}
-	var first *uint64
+	// The node's own key is the key of the first Get (asked before anything is evaluated) and of the last
+	// Put (stored after everything below it).  If an implementation orders its cache calls differently the
+	// two differ and no KeyOf is logged for that expression (less is checked, nothing is assumed).
+	var first, lastPut *uint64
 	probe := &recCache{inner: nopCache{}, onGet: func(key uint64, _ *roaring.Bitmap, _ bool) {
 		if first == nil {
 			k := key
 			first = &k
 		}
+	}, onPut: func(key uint64, _ *roaring.Bitmap) {
+		k := key
+		lastPut = &k
 	}}
 	pidx, err := openWith(r.path(1), "ondemand", probe)
 	if err != nil {
 		panic(err)
 	}
 	for _, e := range subs {
-		first = nil
+		first, lastPut = nil, nil
 		vx.Exec(pidx, d.ToQuery(vx.Query{E: e}))
-		if first != nil {
+		if first != nil && lastPut != nil && *first == *lastPut {
 			r.out.Emit(map[string]any{"ev": "KeyOf", "kid": kid(*first), "e": e})
 		}
 	}
